@@ -44,7 +44,9 @@ Theorem C25_intro_accept_records : forall ua_valid dc m a, is_bytes (im_extra m)
 Proof. exact intro_accept_records. Qed.
 Print Assumptions C25_intro_accept_records.
 
-(* the gate: on a live, not yet introduced connection every message other than
+(* the gate (it has no configuration input: LogPings, pex.Disabled, DisableNetworking
+   make no difference, which the correspondence checks under each of them): on a live,
+   not yet introduced connection every message other than
    INTR / DISC / GIVP is answered by DisconnectMessage(NoIntroduction) and is not
    processed (the state does not change) *)
 Theorem C25_gate : forall c k, alive c = true -> introduced c = false -> passes_gate k = false ->
